@@ -330,8 +330,9 @@ func init() { loadSeeds() }
 
 func Spec() *mon.Spec {
 	return &mon.Spec{
-		ID:    "C36",
-		Level: "exploration",
+		ID:            "C36",
+		SpinViolation: true,
+		Level:         "exploration",
 		Rule: "Inputs: every CommonMark spec example, the package's supplemental formatter cases and the checked-in fuzz corpus at widths {0,1,2,5,20,51,80,random,corpus width}; grammar-generated documents, inline paragraphs and token soups (internal/gen/markdown.go) at random widths; 1-4 byte-level mutations of the seeds. " +
 			"Skipped exactly as the maintainers' fuzz targets do: invalid UTF-8, tabs, FmtCodec.Unsupported() != nil. Oracles: html(fmt(x)) == html(x) (width <= 0: exact; width > 0: modulo whitespace inside <p> and around <br />, input without <p>/</p>); fmt(fmt_w(x)) == fmt_w(x); with width > 0 and no heading/code/HTML block every line wider than the width has no space after its markers or contains '<', a link or a code span. " +
 			"Non-trivial: distinct (input, width) pairs that were decided and whose formatted text differs from the input.",
